@@ -94,7 +94,10 @@ AllGone == \A p \in DOMAIN peers : ~peers[p].open
    the rings of this check, which never wrap); a datagram shorter than the header, or one whose field is 0,
    is received as "0 bytes" and answered by a disconnect *)
 Deliv(t, actual, hsz) == IF t = SHM THEN actual > 0 ELSE actual >= HS /\ hsz # 0
-EffH(t, actual, hsz) == IF t = SHM /\ actual <= 8 THEN 0 ELSE hsz
+EffH(t, actual, hsz) == IF t = SHM /\ actual <= 8 THEN 0
+                        ELSE IF t = SHM /\ actual < 12       \* the field is cut: its low bytes, zero above (little endian)
+                               THEN hsz % (IF actual = 9 THEN 256 ELSE IF actual = 10 THEN 65536 ELSE 16777216)
+                               ELSE hsz
 KF1(t, mx, actual, hsz) == LET e == EffH(t, actual, hsz) IN Deliv(t, actual, e) /\ (e < 0 \/ e > Min(actual, mx))
 KF2(t, mx, actual, hsz) == t = SOCK /\ actual >= HS /\ actual > mx /\ (hsz < 0 \/ hsz > mx)
 KF3(t, mx, actual, hsz) == t = SOCK /\ Min(actual, HS) > mx
